@@ -355,7 +355,39 @@ func (p *c24Proxy) run() {
 	if _, err := down.Write(first.wire()); err != nil {
 		return
 	}
-	var held *c24Frame // frame delayed by a swap
+	var held []*c24Frame // frames delayed by swap actions, flushed (in order) after the next frame that is written
+	// missing = genuine entry frames the reader has not been sent (yet): dropped
+	// for good, or held. Whenever a LATER genuine entry goes out while this is
+	// non-empty the reader is shown a sequence gap the writer never reported -
+	// the shape of the open finding C24-wire-gap-applied-until-checkpoint.
+	type missingEntry struct {
+		f    *c24Frame
+		held bool
+	}
+	var missing []missingEntry
+	aboutToWriteEntry := func(f *c24Frame) {
+		k := 0
+		for _, m := range missing {
+			if m.f != f {
+				missing[k] = m
+				k++
+			}
+		}
+		missing = missing[:k]
+		if len(missing) == 0 {
+			return
+		}
+		p.mu.Lock()
+		p.gapFired = true
+		for _, m := range missing {
+			// a held entry is sent later and trips the sequence check; a dropped one
+			// changes the cumulative hash unless its payload is empty
+			if m.held || len(m.f.Payload) > 0 {
+				p.gapVisible = true
+			}
+		}
+		p.mu.Unlock()
+	}
 	write := func(b []byte) bool {
 		_ = down.SetWriteDeadline(time.Now().Add(120 * time.Second))
 		_, err := down.Write(b)
@@ -412,18 +444,18 @@ func (p *c24Proxy) run() {
 				out = append(out, fr.wire())
 				fire(fmt.Sprintf("type=%#x", fr.Type))
 			case "drop":
-				dropped = true
-				if fr.Type == MsgReplicateEntry {
-					p.mu.Lock()
-					p.gapFired = true
-					if len(fr.Payload) > 0 {
-						p.gapVisible = true
-					}
-					p.mu.Unlock()
+				if !dropped && fr.Type == MsgReplicateEntry {
+					missing = append(missing, missingEntry{f: fr})
 				}
+				dropped = true
 				fire(fmt.Sprintf("type=%#x seq=%d payload=%dB", fr.Type, fr.Seq, len(fr.Payload)))
 			case "swap":
-				held = fr
+				if !dropped {
+					held = append(held, fr)
+					if fr.Type == MsgReplicateEntry {
+						missing = append(missing, missingEntry{f: fr, held: true})
+					}
+				}
 				dropped = true
 				fire(fmt.Sprintf("type=%#x seq=%d", fr.Type, fr.Seq))
 			case "replaycp":
@@ -494,28 +526,34 @@ func (p *c24Proxy) run() {
 		}
 		ok := true
 		if !dropped {
+			if fr.Type == MsgReplicateEntry {
+				aboutToWriteEntry(fr)
+			}
 			for _, b := range out {
 				if ok = write(b); !ok {
 					break
 				}
 			}
-			if ok && held != nil && held != fr {
-				if held.Type == MsgReplicateEntry && fr.Type == MsgReplicateEntry {
-					p.mu.Lock()
-					p.gapFired = true
-					p.gapVisible = true
-					p.mu.Unlock()
+			for ok && len(held) > 0 {
+				h := held[0]
+				held = held[1:]
+				if h.Type == MsgReplicateEntry {
+					aboutToWriteEntry(h)
 				}
-				ok = write(held.wire())
-				held = nil
+				ok = write(h.wire())
 			}
 		}
 		if !ok {
 			break
 		}
 	}
-	if held != nil {
-		write(held.wire())
+	for _, h := range held {
+		if h.Type == MsgReplicateEntry {
+			aboutToWriteEntry(h)
+		}
+		if !write(h.wire()) {
+			break
+		}
 	}
 }
 
@@ -1144,6 +1182,41 @@ func TestVerifC24_WireFaultMatrix(t *testing.T) {
 				}
 			}
 		}
+	}
+	// two actions on adjacent frames: the entry right before a checkpoint and
+	// the checkpoint itself are both delayed (or one delayed, one removed), so a
+	// LATER genuine entry reaches the reader first; optionally with a bit flip
+	// on the delayed entry.
+	for _, interval := range []int{2, 4} {
+		e := interval - 1 // frame index of the entry right before the first checkpoint
+		combos := [][]c24Action{
+			{{Kind: "swap", Frame: e}, {Kind: "swap", Frame: e + 1}},
+			{{Kind: "swap", Frame: e + 1}, {Kind: "swap", Frame: e}},
+			{{Kind: "swap", Frame: e}, {Kind: "drop", Frame: e + 1}},
+			{{Kind: "drop", Frame: e}, {Kind: "swap", Frame: e + 1}},
+			{{Kind: "drop", Frame: e}, {Kind: "drop", Frame: e + 1}},
+			{{Kind: "flip", Frame: e, Off: 18, Mask: 1}, {Kind: "swap", Frame: e}, {Kind: "swap", Frame: e + 1}},
+			{{Kind: "swap", Frame: e - 1 + interval + 1}, {Kind: "swap", Frame: e + interval + 1}, {Kind: "swap", Frame: e + interval + 2}},
+		}
+		for _, acts := range combos {
+			c := c24Case{Producers: 1, Appends: entries, Seed: 11, SizeClass: "small", Interval: interval, ByteBudget: 1 << 20, Actions: acts}
+			r := c24Run(c)
+			c24Record(c, r)
+			c24Check(t, c, r)
+			n++
+		}
+	}
+	// shapes first met by the thorough tier (kept as fixed regression cases)
+	for _, c := range []c24Case{
+		{Producers: 2, Appends: 17, Seed: 732614339, SizeClass: "mixed", Interval: 2, ByteBudget: 1 << 20,
+			Actions: []c24Action{{Kind: "swap", Frame: 14}, {Kind: "swap", Frame: 13}}},
+		{Producers: 1, Appends: 13, Seed: 2, SizeClass: "large", Interval: 8, ByteBudget: 1 << 20,
+			Actions: []c24Action{{Kind: "flip", Frame: 7, Off: 18, Mask: 1}, {Kind: "swap", Frame: 7}, {Kind: "swap", Frame: 8}}},
+	} {
+		r := c24Run(c)
+		c24Record(c, r)
+		c24Check(t, c, r)
+		n++
 	}
 	verifkit.Note("wire_fault_matrix_cases", n)
 }
